@@ -105,7 +105,7 @@ def run_one(m, tier='quick'):
 
 def main():
     args = sys.argv[1:]
-    only = prop = None
+    only = prop = extra_file = None
     jobs = 8
     i = 0
     while i < len(args):
@@ -115,12 +115,16 @@ def main():
             prop = args[i + 1]; i += 1
         elif args[i] == '--jobs':
             jobs = int(args[i + 1]); i += 1
+        elif args[i] == '--file':
+            extra_file = args[i + 1]; i += 1
         elif args[i] == '--list':
             for m in load_mutants():
                 print(m['id'], m['property'], m['expect'])
             return 0
         i += 1
     ms = load_mutants()
+    if extra_file:
+        ms = json.load(open(extra_file))      # ad-hoc trial of mutants that are not (yet) part of the self-test
     if only:
         ms = [m for m in ms if re.search(only, m['id'])]
     if prop:
